@@ -1,5 +1,7 @@
 import MuscleModel.Tunnel.Proofs4
 import MuscleModel.Tunnel.ProofsMini
+import MuscleModel.Tunnel.Proofs5
+import MuscleModel.Tunnel.Backpressure
 
 /-!
 # C12 — The packet tunnel never delivers a Message that was not sent
@@ -93,6 +95,34 @@ theorem safety (c : RxCfg) (hmisc : c.misc = false) (srcs : Nat → Source) (hok
   obtain ⟨id, hid⟩ := safety_any_datagrams c hmisc sent delivered hgen src b hb
   exact sentBy_mem _ _ _ _ hid
 
+/-- **Safety also for cut datagrams.**  The same with every delivered datagram being any PREFIX of a packet a
+    source wrote: a transport that took only part of a packet (short `Write`), a path that truncates, a
+    receiver with a smaller MTU. -/
+theorem safety_truncated (c : RxCfg) (hmisc : c.misc = false) (srcs : Nat → Source) (hok : ∀ s, (srcs s).OK)
+    (delivered : List Datagram)
+    (hnet : ∀ s d, (s, d) ∈ delivered → ∃ p t, p ∈ sentDatagrams (srcs s) ∧ d ++ t = p) :
+    ∀ src b, (src, b) ∈ (rxAll hdr c [] delivered).2 → b ∈ (srcs src).ms := by
+  intro src b hb
+  let sent : SentMap := fun s => sentBy (srcs s).id0 (srcs s).ms
+  have hgen : AllGenuine hdr c sent delivered := by
+    intro s d hd f hf
+    obtain ⟨hmg, hsx, hid, hlen, hW⟩ := hok s
+    obtain ⟨p, t, hp', hpre⟩ := hnet s d hd
+    simp only [sentDatagrams, sendAllBytes, List.mem_map] at hp'
+    obtain ⟨fr, hfr, rfl⟩ := hp'
+    have hst := (sendLoop_stream hdr (effMtu hdr (srcs s).tx.mtu) (srcs s).tx.magic (srcs s).tx.sex (effMtu_gt _ _)
+      (txMeasure 0 (srcs s).ms + 1) (srcs s).id0 0 (srcs s).ms (by omega) (offOK_zero _)).1
+    have hall := stream_genuine (srcs s).tx.magic (srcs s).tx.sex hmg hsx (srcs s).id0 (srcs s).ms hlen hW s sent rfl hst 0
+      (by simp only [W32] at *; omega) (fun i => by simp)
+    have hsub : ∀ g, g ∈ fr → FragWF0 g ∧ Genuine sent s g := fun g hg =>
+      hall g (List.mem_flatten.mpr ⟨fr, hfr, hg⟩)
+    have hmem : f ∈ fr :=
+      parse_sub c fr _ _ (d.drop (effMtu hdr c.mtu) ++ t) (fun g hg => (hsub g hg).1)
+        (by rw [← List.append_assoc, List.take_append_drop, hpre]) f hf
+    exact (hsub f hmem).2
+  obtain ⟨id, hid⟩ := safety_any_datagrams c hmisc sent delivered hgen src b hb
+  exact sentBy_mem _ _ _ _ hid
+
 /-- **No cross-source interaction.**  What the fragments of a datagram from `src` do depends on, and
     changes, only the receive state of `src` (`srcRun` never sees the table) … -/
 theorem no_cross_source (c : RxCfg) (src : Nat) (fs : List Frag) (t : Table) :
@@ -108,37 +138,89 @@ theorem no_cross_source_others (c : RxCfg) (src s : Nat) (hs : s ≠ src) (fs : 
     tget (rxFrags c src t fs).1 s = tget t s :=
   rxFrags_other c src s hs fs t hroom
 
+/-- the same at the datagram level, for a whole run: datagrams of other sources — with ANY content, forged
+    ones included — leave the receive state of `s` exactly as it was, as long as the table cannot exceed its
+    cap during the run (each datagram adds at most one entry) -/
+theorem no_cross_source_datagrams (c : RxCfg) (s : Nat) (ps : List Datagram) (t : Table)
+    (hothers : ∀ p, p ∈ ps → p.1 ≠ s) (hcap : t.length + ps.length ≤ c.maxStates) :
+    tget (rxAll hdr c t ps).1 s = tget t s :=
+  rxAll_other hdr c s ps t hothers hcap
+
+/-- **Interleaving independence.**  What the receiver hands on for source `s` when `s`'s datagrams arrive
+    interleaved with arbitrary datagrams of other sources is exactly what it hands on for `s`'s datagrams
+    alone (under the same no-overflow condition). -/
+theorem interleaving_independent (c : RxCfg) (s : Nat) (ps : List Datagram) (t : Table)
+    (hcap : t.length + ps.length ≤ c.maxStates) :
+    (rxAll hdr c t ps).2.filter (fun d => decide (d.1 = s)) =
+      (rxAll hdr c t (ps.filter (fun d => decide (d.1 = s)))).2 :=
+  rxAll_interleaved hdr c s ps t t rfl hcap
+
 /-- **Perfect transport ⇒ exactly once, in order.**  For every MTU (the constructor raises it to at least
     header+1), every start value of the 32-bit id counter (so also across the wrap 2^32−1 → 0), every
     receiver that listens to this sender (same magic, source not excluded, MTU not smaller) in any table
-    state in which the source is not known yet, and every queue of payloads that all fit the receiver's size
-    limit: delivering the sender's packets once, in order, hands over exactly the queued payloads, each
-    once, in order, tagged with the source — and nothing else.
-    (Known finding C12-oversize: with a payload over the limit in the queue the C++ receiver, and therefore
-    the model, loses the payload that follows it; hence `∀ m ∈ ms` in `hfit`.) -/
+    state in which the source is not known yet, every size limit, and every queue of payloads: delivering the
+    sender's packets once, in order, hands over exactly the queued payloads THAT FIT THE RECEIVER'S SIZE LIMIT,
+    each once, in order, tagged with the source — and nothing else.  Payloads over the limit are dropped and
+    do not affect their neighbours (fix 79d1d2b of finding C12-oversize; before it the payload following an
+    oversized one was lost).
+    `hlen` is the id hypothesis again: within one queue of at most 2^32 payloads no id repeats.  It is needed
+    here because a skipped payload leaves the receive state at the id of an *earlier* payload (with exactly
+    2^32−1 oversized payloads between two fitting ones the second would carry the first one's id). -/
 theorem perfect_liveness (tx : TxCfg) (c : RxCfg) (src id0 : Nat) (ms : List Bytes) (t : Table)
     (hmisc : c.misc = false) (hmagic : c.magic = tx.magic) (hsex : c.sex = 0 ∨ c.sex ≠ tx.sex)
     (hmg : tx.magic < W32) (hsx : tx.sex < W32) (hid : id0 < W32)
     (hmtu : effMtu hdr tx.mtu ≤ effMtu hdr c.mtu)
-    (hfit : ∀ m, m ∈ ms → m.length < W32 ∧ m.length ≤ c.maxIn)
+    (hW : ∀ m, m ∈ ms → m.length < W32) (hlen : ms.length ≤ W32)
     (hfresh : tget t src = none) :
-    (rxAll hdr c t ((sendAllBytes hdr tx id0 ms).1.map (fun p => (src, p)))).2 = ms.map (fun m => (src, m)) := by
+    (rxAll hdr c t ((sendAllBytes hdr tx id0 ms).1.map (fun p => (src, p)))).2 =
+      (ms.filter (fun m => decide (m.length ≤ c.maxIn))).map (fun m => (src, m)) := by
   have hs := sendLoop_stream hdr (effMtu hdr tx.mtu) tx.magic tx.sex (effMtu_gt _ _)
     (txMeasure 0 ms + 1) id0 0 ms (by omega) (offOK_zero _)
-  have hwf := stream_wf c tx.magic tx.sex hmg hsx hmagic hsex hs.1 hid hfit
-  have hacc : ∀ p, p ∈ (sendAll hdr tx id0 ms).1 → accepted hdr c (encPacket p) = p := by
+  have hwf := stream_wf c tx.magic tx.sex hmg hsx hmagic hsex hs.1 hid hW
+  have hacc : ∀ p, p ∈ (sendAll hdr tx id0 ms).1 →
+      accepted hdr c (encPacket p) = (fun p => p.filter (fun f => decide (f.total ≤ c.maxIn))) p := by
     intro p hp
     exact accepted_enc hdr c p (fun f hf => hwf f (List.mem_flatten.mpr ⟨p, hp, hf⟩))
       (Nat.le_trans (hs.2 (by decide) p hp) hmtu)
   have hmap : (sendAllBytes hdr tx id0 ms).1.map (fun p => (src, p)) =
       (sendAll hdr tx id0 ms).1.map (fun p => (src, encPacket p)) := by
     simp [sendAllBytes, List.map_map]
-  rw [hmap, rxAll_packets hdr c hmisc src _ t hacc]
+  rw [hmap, rxAll_packets hdr c hmisc src _ _ t hacc]
   simp only
-  rw [(rxFrags_own c src _ t).2, hfresh]
-  have := stream_delivers tx.magic tx.sex hs.1 none hid (fun m hm => (hfit m hm).1) (Or.inl ⟨rfl, Or.inl rfl⟩)
+  rw [flatten_map_filter, (rxFrags_own c src _ t).2, hfresh]
+  have := stream_delivers_fit tx.magic tx.sex c.maxIn hs.1 none hid hW hlen
+    (sync2_of_before c.maxIn none id0 ms (Or.inl rfl))
   simp only [sendAll] at this ⊢
   rw [this]
+
+/-- the special case without oversized payloads: the whole queue arrives -/
+theorem perfect_liveness_all_fit (tx : TxCfg) (c : RxCfg) (src id0 : Nat) (ms : List Bytes) (t : Table)
+    (hmisc : c.misc = false) (hmagic : c.magic = tx.magic) (hsex : c.sex = 0 ∨ c.sex ≠ tx.sex)
+    (hmg : tx.magic < W32) (hsx : tx.sex < W32) (hid : id0 < W32)
+    (hmtu : effMtu hdr tx.mtu ≤ effMtu hdr c.mtu)
+    (hW : ∀ m, m ∈ ms → m.length < W32) (hlen : ms.length ≤ W32) (hfit : ∀ m, m ∈ ms → m.length ≤ c.maxIn)
+    (hfresh : tget t src = none) :
+    (rxAll hdr c t ((sendAllBytes hdr tx id0 ms).1.map (fun p => (src, p)))).2 = ms.map (fun m => (src, m)) := by
+  rw [perfect_liveness tx c src id0 ms t hmisc hmagic hsex hmg hsx hid hmtu hW hlen hfresh]
+  congr 1
+  exact List.filter_eq_self.mpr (fun m hm => decide_eq_true (hfit m hm))
+
+/-- **…with other sources interleaved.**  `src`'s packets arrive once and in order, but between them any
+    datagrams of other sources may arrive (any content): `src`'s deliveries are still exactly its queued
+    payloads within the size limit, once, in order. -/
+theorem perfect_liveness_interleaved (tx : TxCfg) (c : RxCfg) (src id0 : Nat) (ms : List Bytes) (t : Table)
+    (ps : List Datagram)
+    (hmine : ps.filter (fun d => decide (d.1 = src)) = (sendAllBytes hdr tx id0 ms).1.map (fun p => (src, p)))
+    (hcap : t.length + ps.length ≤ c.maxStates)
+    (hmisc : c.misc = false) (hmagic : c.magic = tx.magic) (hsex : c.sex = 0 ∨ c.sex ≠ tx.sex)
+    (hmg : tx.magic < W32) (hsx : tx.sex < W32) (hid : id0 < W32)
+    (hmtu : effMtu hdr tx.mtu ≤ effMtu hdr c.mtu)
+    (hW : ∀ m, m ∈ ms → m.length < W32) (hlen : ms.length ≤ W32)
+    (hfresh : tget t src = none) :
+    (rxAll hdr c t ps).2.filter (fun d => decide (d.1 = src)) =
+      (ms.filter (fun m => decide (m.length ≤ c.maxIn))).map (fun m => (src, m)) := by
+  rw [interleaving_independent c src ps t hcap, hmine]
+  exact perfect_liveness tx c src id0 ms t hmisc hmagic hsex hmg hsx hid hmtu hW hlen hfresh
 
 /-- every packet the sender writes respects its MTU -/
 theorem packets_within_mtu (tx : TxCfg) (id0 : Nat) (ms : List Bytes) :
@@ -168,6 +250,21 @@ example : (sendAllBytes hdr exTx 4294967295 exMs).1.length = 5 := by decide
 
 example : (rxAll hdr exRx [] ((sendAllBytes hdr exTx 4294967295 exMs).1.map (fun p => (7, p)))).2
     = [(7, [1, 2, 3]), (7, []), (7, [9])] := by decide
+
+/-- a receiver limit of 2 bytes: the 3-byte payload is dropped, its neighbours arrive (the regression of C12-oversize) -/
+example : (rxAll hdr { exRx with maxIn := 2, mtu := 100 } []
+    ((sendAllBytes hdr { exTx with mtu := 100 } 4294967295 exMs).1.map (fun p => (7, p)))).2
+    = [(7, []), (7, [9])] := by decide
+
+/-- back-pressure (`Tunnel/Backpressure.lean`, correspondence-checked, no general theorem yet): MTU 26, the
+    transport takes the first packet and blocks on the second, which is held; a later call (one more payload
+    queued) writes the held packet first: nothing is lost, the order is kept -/
+def exBlocked : List Bytes :=
+  let d1 := drain hdr 26 tunnelDefaultMagic 0 50 [100000, 0] { queue := [[1, 2, 3]] }
+  let d2 := drain hdr 26 tunnelDefaultMagic 0 50 [] { d1.2 with queue := d1.2.queue ++ [[9]] }
+  d1.1 ++ d2.1
+example : (drain hdr 26 tunnelDefaultMagic 0 50 [100000, 0] { queue := [[1, 2, 3]] }).1.length = 1 := by decide
+example : (rxAll hdr { exRx with mtu := 26 } [] (exBlocked.map (fun p => (7, p)))).2 = [(7, [1, 2, 3]), (7, [9])] := by decide
 
 /-- loss of the middle packet of the first payload: it is not delivered, the others are -/
 example : (rxAll hdr exRx [] (((sendAllBytes hdr exTx 4294967295 exMs).1.eraseIdx 1).map (fun p => (7, p)))).2
